@@ -1502,11 +1502,13 @@ class QueryBuilder(Selectable, Term):  # type:ignore[misc]
         return isinstance(select, Field) and select.alias is None
 
     def _select_field(self, term: Field) -> None:
-        if self._select_star:
-            # Do not add select terms after a star is selected
+        if self._select_star and self._is_plain_column(term):
+            # Do not add select terms after a star is selected (a column under an alias of its own is not redundant)
             return
 
-        if any(term.table == table for table in self._select_star_tables):
+        if self._is_plain_column(term) and any(
+            term.table == table for table in self._select_star_tables
+        ):
             # Do not add select terms for table after a table star is selected
             # (compared one by one: a join may have given the table its automatic alias after it was hashed into the set)
             return
